@@ -676,7 +676,7 @@ func main() {
 	out, tier, seed, _ := Args()
 	nProg, depth := 260, 3
 	if tier == "thorough" {
-		nProg, depth = 2500, 4
+		nProg, depth = 8000, 4
 	}
 	rng := rand.New(rand.NewSource(seed))
 	m := NewMeta("C12", tier, seed)
